@@ -14,7 +14,10 @@ package main
 //     upstream closed, goroutines gone, frames whole.
 //  C. connection-write schedules (two writers, Write by Write) from Model/ConnWrite.
 //  D. perturbed stress scripts (free running, seeded delays at every hook point), property
-//     oracle + free-running conformance of the recorded hook traces (`c18.accept`).
+//     oracle + free-running conformance of the recorded hook traces (`c18.accept`); scripts with
+//     `start-refused` (Subscribe fails after the websocket handshake): the hook points of the
+//     refused start's reader and closer against the establishment model (`c18.init.accept`,
+//     Model/SubInit.lean, variant from the regenerated facts).
 
 import (
 	"bufio"
